@@ -62,7 +62,8 @@ Proof. intros n cc code []. Qed.
 Definition kfn_ok (G : kctx) (ps : list str) (body : list stmt) (pk : list kind) (r : kind) : Prop :=
   pk = map (pkind body) ps /\ NoDup ps /\ forallb src_nameb ps = true /\ map fst G = free_vars ps body /\
   (r = KN \/ last_ret body = true) /\
-  exists B' rets, kblock (Some (pk, r)) false (rev (combine ps pk)) G body = Some (B', rets) /\ (forall k, In k rets -> k = r).
+  exists B' rets, kblock (Some (pk, r)) false (rev (combine ps pk)) G body = Some (B', rets) /\
+                  (forall k, In k rets -> k = r \/ (r = KN /\ k = KD)).
 
 Definition clos_ok (b : cinj) (pk : list kind) (r : kind) (ps : list str) (body : list stmt) (cenv : list scope)
            (loc : str) (cb : option (list (str * N))) : Prop :=
@@ -159,8 +160,15 @@ Proof. intros b b' s g [H1 _] Hle c c' k Hb. exact (H1 _ _ _ (Hle _ _ _ Hb)). Qe
 
 (* ================================================================ scopes vs frames *)
 Definition brel (b : cinj) (c c' : N) : Prop := exists k, b c c' k.
+(* P: the names the VM binds only if the reference semantics does (all names, except while the upper bound of a `from` loop
+   with a named counter is evaluated: the VM has bound the counter already) *)
+Variable P : str -> Prop.
+Definition orelP {A B} (p : Prop) (R : A -> B -> Prop) (x : option A) (y : option B) : Prop :=
+  match x, y with Some a, Some b => R a b | None, None => True | Some _, None => False | None, Some _ => ~ p end.
+Lemma orelP_impl : forall A B (p : Prop) (R R' : A -> B -> Prop) x y, (forall a b, R a b -> R' a b) -> orelP p R x y -> orelP p R' x y.
+Proof. intros A B p R R' [a|] [b|] H H0; cbn in *; auto. Qed.
 Definition look2 (b : cinj) (l : list scope) (fs : list frame) : Prop :=
-  forall x, uname0 x -> orel (brel b) (lookup_scopes x l) (find_in_function x fs).
+  forall x, uname0 x -> orelP (P x) (brel b) (lookup_scopes x l) (find_in_function x fs).
 Fixpoint Rfr2 (b : cinj) (l : list scope) (fs : list frame) {struct l} : Prop :=
   match l, fs with
   | _ :: l', f :: fs' =>
@@ -180,7 +188,7 @@ Lemma Rfr2_mono : forall b b' l fs, cinj_le b b' -> Rfr2 b l fs -> Rfr2 b' l fs.
 Proof.
   intros b b' l fs Hle. revert fs. induction l as [|sc l IH]; intros [|f fs] H; cbn in H; try contradiction.
   destruct H as [Hl H]. cbn [Rfr2]. split.
-  - intros x Hx. eapply orel_impl; [|exact (Hl x Hx)]. intros c c' [k Hk]. exists k. now apply Hle.
+  - intros x Hx. eapply orelP_impl; [|exact (Hl x Hx)]. intros c c' [k Hk]. exists k. now apply Hle.
   - destruct l as [|sc' l]; [exact H|]. destruct H as [Hs H]. split; [exact Hs|]. now apply IH.
 Qed.
 Lemma Rfr2_pop : forall b sc sc' l f fs, Rfr2 b (sc :: sc' :: l) (f :: fs) -> Rfr2 b (sc' :: l) fs.
@@ -211,7 +219,7 @@ Proof.
   intros b sc l f fs x c c' k H Hb. cbn [Rfr2] in H |- *. destruct H as [Hl H]. split; [|exact H].
   intros y Hy. cbn [lookup_scopes find_in_function vars lab].
   destruct (list_eq_dec N.eq_dec y x) as [->|Hne].
-  - rewrite !assoc_set_same. cbn [orel]. exists k. exact Hb.
+  - rewrite !assoc_set_same. cbn [orelP]. exists k. exact Hb.
   - rewrite !assoc_set_other by exact Hne. exact (Hl y Hy).
 Qed.
 Lemma Rfr2_push : forall b l fs lb, Rfr2 b l fs -> special lb = true ->
@@ -241,8 +249,7 @@ Proof.
   destruct (list_eq_dec N.eq_dec y x) as [->|Hne].
   - rewrite Hxv, Hxs, Hxl. destruct l as [|sc' l'].
     + rewrite H. exact Logic.I.
-    + destruct H as [Hs H]. rewrite Hs. pose proof (Rfr2_look _ _ _ H x Hx) as Hk. rewrite Hxl in Hk.
-      destruct (find_in_function x fs); [contradiction|exact Logic.I].
+    + destruct H as [Hs H]. rewrite Hs. pose proof (Rfr2_look _ _ _ H x Hx) as Hk. rewrite Hxl in Hk. exact Hk.
   - rewrite assoc_del_other by exact Hne. rewrite (Hvs y Hy Hne). exact (Hl y Hy).
 Qed.
 
@@ -553,3 +560,77 @@ Proof.
 Qed.
 End Act.
 End Rel.
+
+(* every name: the relation between statements *)
+Definition allP : str -> Prop := fun _ => True.
+
+(* ================================================================ a name the VM binds before the reference semantics does
+   (the named counter of a `from` loop while the upper bound is evaluated) *)
+Lemma Rfr2_weakenP : forall (P P' : str -> Prop) b l fs, (forall y, P y -> P' y) -> Rfr2 P' b l fs -> Rfr2 P b l fs.
+Proof.
+  intros P P' b l. induction l as [|sc l IH]; intros fs HP H; [destruct fs; exact H|]. destruct fs as [|f fs]; [exact H|].
+  cbn [Rfr2] in H |- *. destruct H as [Hl H]. split.
+  - intros x Hx. specialize (Hl x Hx). unfold orelP in *. destruct (lookup_scopes x (sc :: l)), (find_in_function x (f :: fs)); auto.
+  - destruct l as [|sc' l']; [exact H|]. destruct H as [Hs H]. split; [exact Hs|]. now apply IH.
+Qed.
+
+(* store_fast x: the VM binds x in its top frame, to a cell of its own *)
+Lemma Cl_bind_ghost : forall path prog (P P' : str -> Prop) cb CD base fnm SF b B env s g x w f fs,
+  Cl path prog P' cb CD base fnm SF b B env s g -> (forall y, P y -> P' y /\ y <> x) -> frames g = f :: fs ->
+  assoc x B = None -> lookup_scopes x (locals env) = None ->
+  forall tr, let cn := N.of_nat (length (cells g)) in
+  Cl path prog P cb CD base fnm SF b B env s
+     {| cells := cells g ++ [w]; frames := {| lab := lab f; vars := assoc_set x cn (vars f) |} :: fs; out := out g; trace := tr |}.
+Proof.
+  intros path prog P P' cb CD base fnm SF b B env s [cs fr o tr0] x w f fs [H1 H2 H3 H4 H5 H6 H7 H8 H9 H10] HP Ef HxB Hn tr cn.
+  cbn [cells frames out trace] in *. subst fr.
+  constructor; cbn [cells frames out]; try assumption.
+  - eapply heap_vm_alloc; [exact H1|reflexivity].
+  - apply (Rfr2_weakenP P P') in H2; [|intros y Hy; exact (proj1 (HP y Hy))].
+    destruct (locals env) as [|sc l] eqn:El; [exact H2|]. cbn [Rfr2] in H2 |- *. destruct H2 as [Hl H2]. split; [|exact H2].
+    intros y Hy. cbn [find_in_function vars lab]. destruct (list_eq_dec N.eq_dec y x) as [->|Hne].
+    + rewrite assoc_set_same, Hn. cbn [orelP]. intros Hp. exact (proj2 (HP x Hp) eq_refl).
+    + rewrite assoc_set_other by exact Hne. exact (Hl y Hy).
+  - intros y k E. destruct (H3 y k E) as (Hy & c & c' & A1 & A2 & A3). split; [exact Hy|]. exists c, c'. split; [exact A1|]. split; [|exact A3].
+    cbn [find_in_function vars lab] in *. rewrite assoc_set_other; [exact A2|]. intros ->. congruence.
+  - destruct (locals env) as [|sc l]; [destruct (Rfr2_ne _ _ _ _ H2); congruence|]. cbn [length skipn] in *. exact H6.
+  - apply (nd_top f fs); [exact H8|]. apply keys_nd_assoc_set. inversion H8; assumption.
+Qed.
+
+(* ... and the reference semantics declares x now: the two cells are paired; every name is bound on both sides or on none again *)
+Lemma Cl_declare_late : forall path prog (P P' : str -> Prop) cb CD base fnm SF b0 b B env s g x v c' sc l f0 f fs,
+  Cl path prog P cb CD base fnm SF b B env s g -> (forall y, y <> x -> P' y -> P y) ->
+  Rfr2 P' b0 (locals env) (f0 :: fs) -> cinj_le b0 b ->
+  locals env = sc :: l -> frames g = f :: fs -> uname0 x -> assoc x (vars f) = Some c' ->
+  first_order v -> cell_get g c' = Some (inj v) -> (forall c k, ~ b c c' k) ->
+  lookup_scopes x (locals env) = None -> assoc x B = None ->
+  let c := N.of_nat (length (store s)) in
+  Cl path prog P' cb CD base fnm SF (add_pair b c c' KD) ((x, KD) :: B)
+     {| locals := assoc_set x c sc :: l; captured := captured env; cur := cur env |}
+     {| store := store s ++ [v]; rout := rout s |} g.
+Proof.
+  intros path prog P P' cb CD base fnm SF b0 b B [lc cap cu] [st ro] g x v c' sc l f0 f fs [H1 H2 H3 H4 H5 H6 H7 H8 H9 H10]
+         HP H0 Hle0 El Ef Hx Hax Hfo Hc' Hn Hlk HxB c.
+  cbn [locals captured cur store rout] in *. subst lc.
+  assert (Hle : cinj_le b (add_pair b c c' KD)) by (intros x1 y1 z1 Hb; left; exact Hb).
+  constructor; cbn [locals captured cur store rout]; try assumption.
+  - apply (heap_pair_late path prog) with (s := {| store := st; rout := ro |}); assumption.
+  - rewrite Ef in *. cbn [Rfr2] in H2, H0 |- *. destruct H2 as [Hl H2]. destruct H0 as [_ H0]. split.
+    + intros y Hy. cbn [lookup_scopes find_in_function vars lab]. destruct (list_eq_dec N.eq_dec y x) as [->|Hne].
+      * rewrite assoc_set_same, Hax. cbn [orelP]. exists KD. right. auto.
+      * rewrite assoc_set_other by exact Hne. specialize (Hl y Hy). cbn [lookup_scopes find_in_function] in Hl.
+        unfold orelP in *. destruct (match assoc y sc with Some c1 => Some c1 | None => lookup_scopes y l end) as [c1|];
+          destruct (match assoc y (vars f) with Some c1 => Some c1 | None => if special (lab f) then find_in_function y fs else None end) as [c2|]; auto.
+        destruct Hl as [k Hk]. exists k. now left.
+    + destruct l as [|sc' l']; [exact H2|]. destruct H2 as [Hs _]. destruct H0 as [_ H0]. split; [exact Hs|].
+      apply (Rfr2_mono P' b0); [|exact H0]. intros c1 c2 k Hb. left. now apply Hle0.
+  - intros y ky E. cbn [assoc] in E. destruct (str_eqb x y) eqn:Exy.
+    + apply str_eqb_iff in Exy. subst y. inversion E; subst ky. split; [exact Hx|]. exists c, c'.
+      rewrite Ef. cbn [lookup_scopes find_in_function]. rewrite assoc_set_same, Hax. split; [reflexivity|]. split; [reflexivity|right; auto].
+    + assert (Hne : y <> x) by (intros ->; rewrite str_eqb_refl in Exy; discriminate).
+      destruct (H3 y ky E) as (Hy & d & d' & A1 & A2 & A3). split; [exact Hy|]. exists d, d'.
+      cbn [lookup_scopes] in *. rewrite assoc_set_other by exact Hne. split; [exact A1|]. split; [exact A2|now left].
+  - intros y ky E. destruct (H4 y ky E) as (Hy & d & d' & A1 & A2 & A3). split; [exact Hy|]. exists d, d'. split; [exact A1|]. split; [exact A2|now left].
+  - apply NS_declare; [exact H7|right; exact Hlk].
+  - eapply cur_ok_mono; [exact Hle|]. eapply cur_ok_eq; [|exact H10]. reflexivity.
+Qed.
